@@ -224,6 +224,9 @@ func createOptimisedTransport(config *Configuration) *http.Transport {
 		TLSHandshakeTimeout: DefaultTLSHandshakeTimeout,
 		DisableCompression:  true,
 		ForceAttemptHTTP2:   true,
+		// response_timeout bounds the wait for a backend's response head: a backend that accepts the
+		// request and then says nothing (or half a header) does not hold the request for ever
+		ResponseHeaderTimeout: config.GetResponseTimeout(),
 		DialContext: func(ctx context.Context, network, addr string) (net.Conn, error) {
 			dialer := &net.Dialer{
 				Timeout:   config.GetConnectionTimeout(),
